@@ -40,19 +40,16 @@ structure OpInfo where
   sem : Sem
 deriving Repr, Inhabited
 
-/-- opcode byte ↦ (name, probed layout, semantics); built from the probed rows joined with `semOf`. -/
-def opTable : Array (Option OpInfo) :=
-  Gen.Opcodes.rows.foldl
-    (fun t (r : Nat × String × Nat) =>
-      match semOf r.2.1 with
-      | some s => t.setIfInBounds r.1 (some ⟨r.2.1, r.2.2, s⟩)
-      | none => t)
-    (Array.replicate 256 none)
+/-- the probed rows paired position by position with the semantic table (the generator lists them
+in that order) -/
+def opRows : List ((Nat × String × Nat) × (String × Sem)) := Gen.Opcodes.rows.zip semTable
 
+/-- opcode byte ↦ (name, probed layout, semantics). A pair whose names differ is ignored, so a
+misaligned table only makes opcodes unknown (and `C29.tables_agree` fail). -/
 def opInfo (op : Nat) : Option OpInfo :=
-  match opTable[op]? with
-  | some (some i) => some i
-  | _ => none
+  match opRows.find? (fun p => p.1.1 == op && p.1.2.1 == p.2.1) with
+  | some p => some ⟨p.1.2.1, p.1.2.2, p.2.2⟩
+  | none => none
 
 structure Instr where
   pc : Nat
@@ -152,14 +149,15 @@ def decodeOperands (code : Array Nat) (pc op : Nat) (info : OpInfo) : Opnd → E
       | .error e => .error e
       | .ok (ups, p) => .ok ⟨pc, op, info, 0, 0, 0, p - pc, ups⟩
 
+def decodeOp (code : Array Nat) (pc op : Nat) : Option OpInfo → Except Fault Instr
+  | none => .error (.unknownOp pc op)
+  | some info => decodeOperands code pc op info info.sem.opnd
+
 /-- decode the instruction at `pc` -/
 def decodeAt (code : Array Nat) (pc : Nat) : Except Fault Instr :=
   match code[pc]? with
   | none => .error (.pcOut pc)
-  | some op =>
-    match opInfo op with
-    | none => .error (.unknownOp pc op)
-    | some info => decodeOperands code pc op info info.sem.opnd
+  | some op => decodeOp code pc op (opInfo op)
 
 /-- Linear sweep from offset 0 (`BytecodeFunction.Disassemble`): the instruction start offsets.
 `fuel` bounds the number of instructions; `code.size + 1` always suffices (`sweep_fuel`). -/
